@@ -20,6 +20,7 @@ an analytic form.
   the SAME keywords gives and never calls an ``integrate`` method; flux_unit refusals; unknown integration type rejected; configuration restored.
 """
 import math
+import warnings
 from fractions import Fraction as F
 
 import numpy as np
@@ -210,6 +211,72 @@ def build(desc, cls, z=None):
     raise KeyError(k)
 
 
+# parameters that can be re-assigned on a live model: description key -> model attribute
+ASSIGNABLE = {'box': {'amp': 'amplitude', 'x0': 'x_0', 'width': 'width'},
+              'gauss': {'amp': 'amplitude', 'mean': 'mean', 'stddev': 'stddev'},
+              'gaussflux': {'amp': 'amplitude', 'mean': 'mean', 'stddev': 'stddev'},
+              'gaussabs': {'amp': 'amplitude', 'mean': 'mean', 'stddev': 'stddev'},
+              'lorentz': {'amp': 'amplitude', 'x0': 'x_0', 'fwhm': 'fwhm'},
+              'ricker': {'amp': 'amplitude', 'x0': 'x_0', 'sigma': 'sigma'},
+              'trapezoid': {'amp': 'amplitude', 'x0': 'x_0', 'width': 'width', 'slope': 'slope'},
+              'const': {'amp': 'amplitude'}, 'const1d': {'amp': 'amplitude'},
+              'powerlaw': {'amp': 'amplitude', 'x0': 'x_0', 'alpha': 'alpha'},
+              'blackbody': {'temp': 'temperature'}, 'blackbodynorm': {'temp': 'temperature'}}
+
+
+def build_case(case):
+    """the real object as it is when asked: built from the initial parameters of the case's history (if any),
+    optionally integrated once, then re-assigned parameter by parameter (sp.model.<p> = v, sp.model.<p>.value = v,
+    sp.z = z) to the FINAL values, which are the ones the model receives"""
+    h = case.get('hist')
+    if not h:
+        return build(case['model'], case['cls'])
+    d = case['model']
+    sp = build(h['init'], case['cls'])
+    if h.get('pre_call'):
+        try:
+            with warnings.catch_warnings():
+                warnings.simplefilter('ignore')
+                sp.integrate(wavelengths=np.array([fl(v) for v in case['x']]), integration_type=h['pre_call'])
+        except Exception:  # noqa
+            pass
+    for key, mode in h['assign']:
+        if key == 'zp1':
+            sp.z = fl(d['zp1']) - 1
+            continue
+        attr = ASSIGNABLE[d['kind']][key]
+        if mode == 'value':
+            getattr(sp.model, attr).value = fl(d[key])
+        else:
+            setattr(sp.model, attr, fl(d[key]))
+    return sp
+
+
+def add_history(rng, case, lattice):
+    """turn a case into a history: the final description stays, the initial one differs in the assigned parameters"""
+    d = case['model']
+    k = d['kind']
+    if d.get('given') is not None:
+        return
+    if k == 'redshift':
+        init = dict(d)
+        init['zp1'] = q(rng.choice([z for z in (2.0, 4.0, 0.5, 0.25, 1.0) if z != fl(d['zp1'])]))
+        case['hist'] = {'init': init, 'assign': [['zp1', 'attr']], 'pre_call': rng.choice([None, 'trapezoid', 'analytical'])}
+        return
+    if k not in ASSIGNABLE:
+        return
+    other = gen_model(rng, k, case['cls'], lattice)
+    keys = [x for x in ASSIGNABLE[k] if x in d and other.get(x) is not None]
+    rng.shuffle(keys)
+    chosen = keys[:rng.randint(1, len(keys))]
+    init = dict(d)
+    for x in chosen:
+        init[x] = other[x]
+    init.pop('form', None)
+    case['hist'] = {'init': init, 'assign': [[x, rng.choice(['attr', 'value'])] for x in chosen],
+                    'pre_call': rng.choice([None, None, 'trapezoid', 'analytical'])}
+
+
 def unit_class(r):
     import astropy.units as u
     if not isinstance(r, u.Quantity):
@@ -263,14 +330,14 @@ def impl_call(case):
     op = case['op']
     if op == 'eval':
         def f():
-            sp = build(case['model'], case['cls'])
+            sp = build_case(case)
             return sp(np.array([fl(v) for v in case['x']])).value
         return guarded(f)
     x = [fl(v) for v in case['x']]
     box = {}
 
     def f():
-        sp = build(case['model'], case['cls'])
+        sp = build_case(case)
         box['sp'] = sp
         r, path, restored = integrate_call(sp, x, case['itype'], case['conf'], call_kwargs(case))
         box['restored'] = restored
@@ -872,6 +939,8 @@ def make_case(rng, kind, K, refine_p, klass=None):
         else:
             case['fu'] = rng.choice(['absent', 'absent', 'absent', 'flam', 'flam_unit', 'foo', 'none_explicit'])
             case['xkw'] = rng.choice([None, 'area', 'area', 'bogus'])
+    if rng.random() < 0.35:
+        add_history(rng, case, lattice)
     if analytic or err:
         if kind in FALLBACK:
             case['x'] = qs(small_grid(rng, d))
@@ -925,6 +994,10 @@ def make_eval_case(rng, kind, K, klass=None):
         d['unit'] = rng.choice(['photlam', 'flam'])
     case = {'op': 'eval', 'cls': cls, 'model': d, '_const': K}
     finish_desc(case)
+    if rng.random() < 0.35:
+        add_history(rng, case, True)
+        if case.get('hist'):
+            case['hist']['pre_call'] = None
     case['x'] = qs(small_grid(rng, d))
     return case
 
@@ -982,6 +1055,8 @@ def tags(c, o):
         t.append('ampunit:' + c['model']['unit'])
     if c.get('grid'):
         t.append('refined')
+    if c.get('hist'):
+        t.append('history:assign%s' % ('+integrate-before' if c['hist'].get('pre_call') else ''))
     if c.get('family'):
         t.append('limits:%s:%s' % (c['model']['kind'], c['family']))
     t.append('class:' + c['model'].get('klass', c['model']['kind']))
@@ -1004,7 +1079,7 @@ RULE = ('every model class of the running package (Model subclasses in synphot.m
         'is read from the Lean model (10: box, constant, Gaussian, Gaussian-flux, Lorentzian, Ricker/MexicanHat, power law, trapezoid, '
         'black body, normalised black body) x source/bandpass x amplitude '
         'unit (PHOTLAM, FLAM, PHOTNU, FNU, Jy, mJy, STmag, ABmag where the model takes one) x conf.default_integrator in '
-        '{trapezoid, analytical} x integration_type in {analytical, None, trapezoid, 7 unknown names} x keyword options of the call (45% of the cases, 70% for the models without integrate(): flux_unit in {absent, None, photlam/PHOTLAM/units.PHOTLAM, flam/FLAM/units.FLAM, fnu, Jy, count, Angstrom, an unparsable name} x {no other keyword, area=, an unknown keyword}; the explicit-trapezoid twin of a fallback gets the same keywords); amplitudes 0 or '
+        '{trapezoid, analytical} x integration_type in {analytical, None, trapezoid, 7 unknown names} x keyword options of the call (45% of the cases, 70% for the models without integrate(): flux_unit in {absent, None, photlam/PHOTLAM/units.PHOTLAM, flam/FLAM/units.FLAM, fnu, Jy, count, Angstrom, an unparsable name} x {no other keyword, area=, an unknown keyword}; the explicit-trapezoid twin of a fallback gets the same keywords); 35% of the cases with parameters are histories: the object is built with other values, optionally integrated once, then one or more parameters are re-assigned (sp.model.<p> = v, sp.model.<p>.value = v, sp.z = z) to the values the model receives; amplitudes 0 or '
         'log-uniform over 28 decades (sources) / 7 decades (bandpasses); centres log-uniform 200..1e5 A, widths 3e-5..0.4 of the '
         'centre; power-law index: the singular one exactly (1 per wavelength, -1 per frequency; 20%), singular +- 2^-k for k = 2..20 (20%), integers and reals in [-4, 6]; temperatures '
         '30..3e5 K; explicit limits of every peaked / ranged model (Lorentz, Gaussians, Ricker, box, trapezoid, constant, power law) drawn from '
